@@ -371,7 +371,7 @@ Definition handle_star (cf : cfg) (st : pst) (it : iter) (cur : list item) : pst
     else ((if after_start st && negb (c_dot cf) then Frag.u_NO_DOT ++ Frag.u_STAR else Frag.u_STAR), []) in
   let capture0 := c_gcapture cf in
   (* globstar detection *)
-  let '(value, gstar, st1, it1) :=
+  let '(value, gstar, st1, it1, captured) :=
     if after_start st && globstar st && negb (in_list st) then
       (* first try-block: second (and third) star *)
       let '(skip, capture, ita) :=
@@ -388,25 +388,25 @@ Definition handle_star (cf : cfg) (st : pst) (it : iter) (cur : list item) : pst
         | None => (true, capture0, it)
         end in
       let gstar := if capture then S_ "(" ++ gstar0 ++ S_ ")" else gstar0 in
-      if skip then (star, gstar, st, ita)
+      if skip then (star, gstar, st, ita, capture)
       else
         match next ita with
-        | None => (gstar, gstar, st, ita)
+        | None => (gstar, gstar, st, ita, capture)
         | Some (c, i1) =>
           if N.eqb c cBS then
             match references cf st i1 true with
-            | RVal _ _ _ => (star, gstar, st, ita)
-            | RDot _ => (star, gstar, st, ita)
+            | RVal _ _ _ => (star, gstar, st, ita, capture)
+            | RDot _ => (star, gstar, st, ita, capture)
             | RPath =>
                 (* _references consumed the separator character before raising *)
                 let i2 := match next i1 with Some (_, x) => x | None => i1 end in
-                (gstar, gstar, set_matchbase st false, i2)
-            | RStop => (gstar, gstar, st, i1)
+                (gstar, gstar, set_matchbase st false, i2, capture)
+            | RStop => (gstar, gstar, st, i1, capture)
             end
-          else if N.eqb c cSL then (gstar, gstar, set_matchbase st false, i1)
-          else (star, gstar, st, ita)
+          else if N.eqb c cSL then (gstar, gstar, set_matchbase st false, i1, capture)
+          else (star, gstar, st, ita, capture)
         end
-    else (star, gstar0, st, it) in
+    else (star, gstar0, st, it, capture0) in
   let is_g := str_eqb value gstar in
   (* Python compares `value != globstar` by text; when it is equal *by accident* the rewind is skipped.
      The rewind to `index` is already reflected above (we returned `ita`). *)
@@ -423,7 +423,12 @@ Definition handle_star (cf : cfg) (st : pst) (it : iter) (cur : list item) : pst
                     else T value2 :: T (format Frag.u_NEED_SEP (c_sep cf) []) :: cur' in
         let it3 := consume_path_sep cf it2 in
         (set_start_dir st2, it3, T sepd :: cur1)
-      else (set_start_dir st2, it2, cur)
+      else
+        (* merged with the previous globstar: `***` (capture switched off here) un-captures the merged one *)
+        let cur2 := if c_gcapture cf && negb captured
+                    then match cur' with _ :: cur'' => last :: T value2 :: cur'' | [] => cur end
+                    else cur in
+        (set_start_dir st2, it2, cur2)
     | [] => (set_start_dir st2, it2, cur)   (* IndexError in Python; unreachable: root starts with [''] *)
     end
   else (st2, it2, T value2 :: cur).
